@@ -295,7 +295,7 @@ def main(argv=None):
                                 % (evidence["coverage"]["evaluations"], min_eval))
         if replay_case is None and evidence["coverage"]["distinct_nontrivial"] < 2:
             inconclusive.append("fewer than 2 distinct non-trivial cases")
-        if replay_case is None:
+        if replay_case is None and not os.environ.get("VERIF_NOEVIDENCE"):
             os.makedirs(os.path.join(VERIF, "evidence"), exist_ok=True)
             with open(os.path.join(VERIF, "evidence", pid + ".json"), "w") as f:
                 json.dump(evidence, f, indent=1, default=str)
